@@ -46,7 +46,7 @@ def mandatory_bins(tier):
     b = ["len_mod16_%d" % i for i in range(16)] + ["trailing_zeros_%d" % z for z in range(18)]
     b += ["all_zero_content", "via_set_config", "via_direct_construction", "framing_bf3", "framing_bec2", "needle_scan", "needle_session_key", "needle_security_code",
           "needle_customer_key", "needle_plaintext_block", "key_ends_00", "default_key", "cipher_unregistered", "cipher_fails_at_call", "cipher_fails_at_first_call",
-          "cipher_fails_at_last_call", "fault_stream", "fault_path", "read_back_with_key", "long_content", "content_longer_than_1024", "rewrite_after_content_change"]
+          "cipher_fails_at_last_call", "fault_stream", "fault_path", "read_back_with_key", "long_content", "content_longer_than_1024", "rewrite_after_content_change", "rewrite_after_in_place_content_change", "set_config_over_preexisting_plain_configuration"]
     return b
 
 
@@ -99,6 +99,13 @@ def check_case(ns, ctx, content, declared, key, framing, via, specs, conf, rp):
     ctx.distinct(content, declared, key, framing, via, GB.spec_json(specs) if specs else None)
     plain_other = MComp([(0xC3, b"\x02")], b"plain neighbour " + bytes(5), None, False)
     f = BF.Bf3File({"FirmwareId": "1100"}, [BF.Bf3Component(dict(plain_other.desc), plain_other.blob)])
+    if via == "set_config" and len(content) % 3 == 0:
+        # the package already ships a PLAIN configuration component (e.g. factory defaults read from a firmware file)
+        old_desc = {0xC3: b"\x03", 0xC1: b"\x03"}
+        if len(content) % 2:
+            old_desc[0xC2] = b"\x00"
+        f.components.append(BF.Bf3Component(old_desc, b"\x03\x02\x00\x01\x00", None, False))
+        ctx.bin("set_config_over_preexisting_plain_configuration")
     if via == "set_config":
         f.set_config(dict(conf))
         rc = f.components[-1]
@@ -194,8 +201,13 @@ def check_case(ns, ctx, content, declared, key, framing, via, specs, conf, rp):
             conf2[(0x4001, 2)] = new_content[:100]
             f.set_config(conf2)
             new_content = bytes(f.components[-1].blob)
-        else:
+        elif (len(content) // 2) % 2:
             f.components[-1] = BF.Bf3Component(dict(desc), new_content, len(new_content), encrypt_by_session_key=True)
+        else:
+            # same component object, content reassigned in place
+            f.components[-1].blob = new_content
+            f.components[-1].actual_len = len(new_content)
+            ctx.bin("rewrite_after_in_place_content_change")
         buf2 = io.StringIO()
         try:
             if framing == "bf3":
